@@ -1,4 +1,5 @@
-"""C19  Mesh operators: the hot-spot clause (connected components of the entries above the threshold)."""
+"""C19  Mesh operators: the hot-spot clause (connected components of the entries above the threshold) and the
+shape-function gradient of a linear field (Gradient3D, tetrahedra and hexahedra)."""
 import itertools
 
 import numpy as np
@@ -8,19 +9,29 @@ import pylife.mesh.hotspot as HS
 
 from ..sym import sym_and, sym_or, sym_not, SymReal
 from ..util import eq_struct, mutated
+from .. import npfacade
+import warnings
+from fractions import Fraction
+import z3
 
 PROPERTY = "C19"
-ENCODED = ["pylife.mesh.hotspot:HotSpot.calc", "pylife.mesh.hotspot:HotSpot._HotSpot__hs_sel"]
-STUBS = []
+ENCODED = ["pylife.mesh.hotspot:HotSpot.calc", "pylife.mesh.hotspot:HotSpot._HotSpot__hs_sel",
+           "pylife.mesh.gradient:Gradient3D.gradient_of", "pylife.mesh.gradient:Gradient3D._compute_gradient",
+           "pylife.mesh.gradient:Gradient3D._compute_gradient_simplex", "pylife.mesh.gradient:Gradient3D._compute_gradient_simplex_single_node",
+           "pylife.mesh.gradient:Gradient3D._compute_gradient_hexahedral", "pylife.mesh.gradient:Gradient3D._compute_gradient_hexahedral_single_node",
+           "pylife.mesh.gradient:Gradient3D._initialize_ansatz_function_derivative_hexahedral",
+           "pylife.mesh.gradient:Gradient3D._initialize_ansatz_function_derivative_simplex"]
+STUBS = ["numpy.linalg.inv of a 3x3 matrix by its contract adj(J)/det(J) (LinAlgError for an exactly singular matrix) in the symbolic run",
+         "DataFrame.__setitem__(name, float) on a frame with symbolic columns creates an object column (so that it can take symbolic results)"]
 ASSUMPTIONS = ["field values are symbolic (any sign) and pairwise distinct (distinct peaks; ties in the numbering are not specified)",
                "meshes are concrete and enumerated (2-3 elements, shared nodes / disconnected / chains, id gaps, shuffled rows)",
                "oracle: union-find components of the entries >= fraction * maximum under shared-node / shared-element "
                "adjacency, numbered by descending peak"]
-OUTSIDE = ("gradients (lstsq, Jacobian inverses), mesh mapping (scipy griddata / Qhull), surface detection (arccos, arcsin): "
+OUTSIDE = ("the least-squares gradient operator `Gradient` (LAPACK lstsq, nditer over float64 buffers), mesh mapping (scipy griddata / Qhull), surface detection (arccos, arcsin): "
            "no encoding; meshes larger than the enumerated ones")
 RULE = ("one evaluation = one explored path (order type of the field values relative to each other and to the threshold); "
         "distinct = distinct (mesh, fraction, label vector); non-trivial = at least two entries above the threshold")
-LABELS = ["hotspot.threshold", "hotspot.components", "hotspot.numbering"]
+LABELS = ["hotspot.threshold", "hotspot.components", "hotspot.numbering", "gradient.index", "gradient.linear_exact"]
 
 MESHES = {
     "shared_node": [(1, 1), (1, 2), (2, 2), (2, 3)],
@@ -31,15 +42,31 @@ MESHES = {
 }
 
 
+TET2_XYZ = [(0, 0, 0), (1, 0, 0.25), (0, 1, 0), (0.25, 0, 1), (1, 1, 1.5)]
+HEX_XYZ = [(0, 0, 0), (2, 0, 0.25), (2, 1, 0), (0, 1, 0.5), (0, 0.25, 1), (2, 0, 1), (2.5, 1, 1.5), (0, 1, 1)]
+
+
 def bounds(tier):
     return {"meshes": list(MESHES) if tier != "quick" else ["shared_node", "disconnected", "chain_gaps_shuffled"],
-            "fractions": [0.5, 0.9], "entries": "4..6"}
+            "fractions": [0.5, 0.9], "entries": "4..6",
+            "gradient": ("linear field with symbolic gradient and offset; one tetrahedron with symbolic node positions (12 symbols); two tetrahedra "
+                         "sharing a face and one hexahedron (right- and left-handed node order) with " +
+                         ("concrete perturbed positions" if tier == "quick" else "concrete and with fully symbolic positions (15 / 24 symbols)") +
+                         "; node and element ids with gaps and in any order, rows of different elements interleaved")}
 
 
 def cases(tier):
     q = tier == "quick"
     names = ["shared_node", "disconnected", "chain_gaps_shuffled"] if q else list(MESHES)
     out = []
+    # gradient of a linear field (symbolic gradient and offset): symbolic node positions where affordable
+    out.append({"kind": "gradient3d", "mesh": "tet_one", "coords": "symbolic", "_weight": 5})
+    out.append({"kind": "gradient3d", "mesh": "tet_two_shared_face", "coords": TET2_XYZ, "row_order": "interleaved", "_weight": 5})
+    out.append({"kind": "gradient3d", "mesh": "hex_one", "coords": HEX_XYZ, "_weight": 5})
+    out.append({"kind": "gradient3d", "mesh": "hex_one", "coords": [(-x, y, z) for x, y, z in HEX_XYZ], "_weight": 5})   # left-handed node order
+    if not q:
+        out.append({"kind": "gradient3d", "mesh": "tet_two_shared_face", "coords": "symbolic", "row_order": "interleaved", "_weight": 50})
+        out.append({"kind": "gradient3d", "mesh": "hex_one", "coords": "symbolic", "_weight": 200})
     for name in names:
         for frac in (0.5, 0.9):
             c = {"mesh": name, "frac": frac, "_weight": 4 ** len(MESHES[name])}
@@ -58,6 +85,13 @@ def _apply_canary(ctx):
         ctx.patch(H, "_HotSpot__hs_sel", mutated(H._HotSpot__hs_sel, "            if new_elems.any():\n                new_entries = True\n                new_hotspot[new_elems] = True\n", "            pass\n"))
     elif cn == "numbering_from_zero":
         ctx.patch(H, "calc", mutated(H.calc, "hs_index = 1", "hs_index = 0"))
+    elif cn == "tet_jacobian_entry":
+        import pylife.mesh.gradient as GR
+        ctx.patch(GR.Gradient3D, "_compute_gradient_simplex", mutated(GR.Gradient3D._compute_gradient_simplex, "J23 = -x12 + x42", "J23 = -x12 + x32"))
+    elif cn == "hex_ansatz_node_set":
+        import pylife.mesh.gradient as GR
+        ctx.patch(GR.Gradient3D, "_initialize_ansatz_function_derivative_hexahedral",
+                  mutated(GR.Gradient3D._initialize_ansatz_function_derivative_hexahedral, "ay = a in [2,3,6,7]", "ay = a in [2,3,5,7]"))
     elif cn is not None:
         raise RuntimeError("unknown canary " + cn)
 
@@ -66,8 +100,10 @@ CANARIES = [
     {"name": "elements_not_followed", "cases": [{"mesh": "shared_node", "frac": 0.5}]},
     {"name": "threshold_strict", "cases": [{"mesh": "shared_node", "frac": 0.5}]},
     {"name": "numbering_from_zero", "cases": [{"mesh": "disconnected", "frac": 0.5}]},
+    {"name": "tet_jacobian_entry", "cases": [{"kind": "gradient3d", "mesh": "tet_one", "coords": "symbolic"}]},
+    {"name": "hex_ansatz_node_set", "cases": [{"kind": "gradient3d", "mesh": "hex_one", "coords": HEX_XYZ}]},
 ]
-QUICK_CANARIES = 3
+QUICK_CANARIES = 5
 
 
 def _oracle(entries, vals, above):
@@ -109,8 +145,140 @@ def _oracle(entries, vals, above):
     return labels
 
 
+# ---------------------------------------------------------------------------
+# gradient clause: shape-function gradient (Gradient3D) of a linear field on tetrahedra / hexahedra
+
+class _Linalg:
+    """numpy.linalg for the symbolic run: inv of a 3x3 matrix by its contract inv(J) = adj(J) / det(J); an exactly
+    singular matrix raises LinAlgError as numpy does"""
+    LinAlgError = np.linalg.LinAlgError
+
+    def __getattr__(self, name):
+        return getattr(np.linalg, name)
+
+    def det(self, a):
+        a = np.asarray(a, dtype=object)
+        if a.shape != (3, 3):
+            raise RuntimeError("det stub: 3x3 only")
+        return _det3([list(r) for r in a])
+
+    def inv(self, a):
+        a = np.asarray(a, dtype=object)
+        if a.shape != (3, 3):
+            raise RuntimeError("inv stub: 3x3 only")
+        (a11, a12, a13), (a21, a22, a23), (a31, a32, a33) = [list(r) for r in a]
+        c11, c12, c13 = a22 * a33 - a23 * a32, a23 * a31 - a21 * a33, a21 * a32 - a22 * a31
+        det = a11 * c11 + a12 * c12 + a13 * c13
+        if bool(det == 0):
+            raise np.linalg.LinAlgError("Singular matrix")
+        adj = [[c11, a13 * a32 - a12 * a33, a12 * a23 - a13 * a22],
+               [c12, a11 * a33 - a13 * a31, a13 * a21 - a11 * a23],
+               [c13, a12 * a31 - a11 * a32, a11 * a22 - a12 * a21]]
+        out = np.empty((3, 3), dtype=object)
+        for i in range(3):
+            for j in range(3):
+                out[i, j] = adj[i][j] / det
+        return out
+
+
+class _GradFacade(npfacade.NPFacade):
+    def __init__(self):
+        super().__init__()
+        self.linalg = _Linalg()
+
+
+def _object_columns(orig):
+    def __setitem__(self, key, value):
+        # df["grad_x"] = 0.0 on a frame of symbolic columns: keep the new column able to hold symbolic results
+        if isinstance(key, str) and isinstance(value, float) and any(dt == object for dt in self.dtypes):
+            col = np.empty(len(self), dtype=object)
+            col[...] = value
+            value = col
+        return orig(self, key, value)
+    return __setitem__
+
+
+TET_REF = [(0, 0, 0), (1, 0, 0), (0, 1, 0), (0, 0, 1)]
+HEX_REF = [(0, 0, 0), (1, 0, 0), (1, 1, 0), (0, 1, 0), (0, 0, 1), (1, 0, 1), (1, 1, 1), (0, 1, 1)]
+# element layouts: list of (element_id, [node ids in element order]); node ids with gaps, any order
+GRAD_MESHES = {
+    "tet_one": [(40, [7, 3, 12, 5])],
+    "tet_two_shared_face": [(9, [4, 2, 8, 6]), (3, [2, 8, 6, 11])],
+    "hex_one": [(5, [11, 4, 9, 2, 30, 7, 1, 15])],
+}
+
+
+def _det3(m):
+    (a11, a12, a13), (a21, a22, a23), (a31, a32, a33) = m
+    return a11 * (a22 * a33 - a23 * a32) + a12 * (a23 * a31 - a21 * a33) + a13 * (a21 * a32 - a22 * a31)
+
+
+def _run_gradient3d(ctx, case):
+    import pylife.mesh.gradient as GR
+    layout = GRAD_MESHES[case["mesh"]]
+    if ctx.sym:
+        ctx.patch(GR, "np", _GradFacade())
+        ctx.patch(pd.DataFrame, "__setitem__", _object_columns(pd.DataFrame.__setitem__))
+    nodes = []
+    for _e, ns in layout:
+        for nid in ns:
+            if nid not in nodes:
+                nodes.append(nid)
+    hexa = len(layout[0][1]) == 8
+    coords = {}
+    for k, nid in enumerate(nodes):
+        if case.get("coords") == "symbolic":
+            coords[nid] = tuple(ctx.real("%s%d" % (ax, nid)) for ax in "xyz")
+        else:
+            # concrete (dyadic) node positions: exact rational constants in the symbolic run, floats in the replay
+            coords[nid] = tuple((SymReal(z3.RealVal(str(Fraction(float(v))))) if ctx.sym else float(v)) for v in case["coords"][k])
+    g = [ctx.real(n) for n in ("gx", "gy", "gz")]
+    f0 = ctx.real("f0")
+    ctx.hint(sym_and(*[sym_and(v <= 4, v >= -4) for v in g + [f0]]))
+    sym_coords = [c for nid in nodes for c in coords[nid]] if case.get("coords") == "symbolic" else []
+    if sym_coords:
+        ctx.hint(sym_and(*[sym_and(v <= 4, v >= -4) for v in sym_coords]))
+    # non-degenerate elements: the Jacobian of the reference map is regular at every corner
+    for _e, ns in layout:
+        P = [coords[n] for n in ns]
+        if hexa:
+            nb = {0: (1, 3, 4), 1: (0, 2, 5), 2: (3, 1, 6), 3: (2, 0, 7), 4: (5, 7, 0), 5: (4, 6, 1), 6: (7, 5, 2), 7: (6, 4, 3)}
+            for c, (i, j, k) in nb.items():
+                m = [[P[i][r] - P[c][r], P[j][r] - P[c][r], P[k][r] - P[c][r]] for r in range(3)]
+                d = _det3(m)
+                ctx.assume(d != 0)
+        else:
+            m = [[P[1][r] - P[0][r], P[2][r] - P[0][r], P[3][r] - P[0][r]] for r in range(3)]
+            ctx.assume(_det3(m) != 0)
+    field = {nid: g[0] * coords[nid][0] + g[1] * coords[nid][1] + g[2] * coords[nid][2] + f0 for nid in nodes}
+    rows = [(nid, e) for e, ns in layout for nid in ns]
+    order = case.get("row_order")
+    if order == "interleaved" and len(layout) > 1:
+        # rows of different elements interleaved; the order inside every element is kept (it defines the element)
+        per = [[(nid, e) for nid in ns] for e, ns in layout]
+        rows = [r for grp in zip(*per) for r in grp]
+    dt = object if ctx.sym else np.float64
+    df = pd.DataFrame({"x": np.array([coords[n][0] for n, _ in rows], dtype=dt), "y": np.array([coords[n][1] for n, _ in rows], dtype=dt),
+                       "z": np.array([coords[n][2] for n, _ in rows], dtype=dt), "f": np.array([field[n] for n, _ in rows], dtype=dt)},
+                      index=pd.MultiIndex.from_tuples(rows, names=["node_id", "element_id"]))
+    with warnings.catch_warnings():
+        warnings.simplefilter("ignore")
+        grad = df.gradient_3D.gradient_of("f")
+    ctx.signature(("gradient3d", case["mesh"], order, str(case.get("coords"))[:20]))
+    ctx.claim(sorted(grad.index) == sorted(nodes) and list(grad.columns) == ["df_dx", "df_dy", "df_dz"], "gradient.index",
+              (list(grad.index), list(grad.columns)))
+    obs = {}
+    for nid in nodes:
+        got = [grad.loc[nid, c] for c in ("df_dx", "df_dy", "df_dz")]
+        ctx.claim(eq_struct(got, g) if ctx.sym else ctx.close(got, g, 1e-9), "gradient.linear_exact", (nid, got, g))
+        obs["n%d" % nid] = got
+    return obs
+
+
 def run(ctx, case):
     _apply_canary(ctx)
+    if case.get("kind") == "gradient3d":
+        return _run_gradient3d(ctx, case)
     entries = MESHES[case["mesh"]]
     frac = case["frac"]
     n = len(entries)
